@@ -526,6 +526,34 @@ func execCopyCycle(t []string) string {
 	return "ok"
 }
 
+// execCanon: "read canon <segs>": Canonicalize(root struct); also checks that canonicalising the
+// canonical form gives the same bytes.
+func execCanon(t []string) string {
+	segs, ok := parseSegs(t[1])
+	if !ok {
+		return "bad-op"
+	}
+	msg := &capnp.Message{Arena: capnp.MultiSegment(segs), TraverseLimit: 1 << 40}
+	root, err := msg.Root()
+	if err != nil {
+		return "invalid"
+	}
+	b, err := capnp.Canonicalize(root.Struct())
+	if err != nil {
+		return "err"
+	}
+	m2 := &capnp.Message{Arena: capnp.SingleSegment(exact(b)), TraverseLimit: 1 << 40}
+	r2, err := m2.Root()
+	if err != nil {
+		return "canonical-form-unreadable"
+	}
+	b2, err := capnp.Canonicalize(r2.Struct())
+	if err != nil || !bytes.Equal(b, b2) {
+		return "not-idempotent " + lib.Hex(b) + " " + lib.Hex(b2)
+	}
+	return "ok " + lib.Hex(b)
+}
+
 // execEqual: "read equal <segsA> <segsB>": capnp.Equal on the two roots.
 func execEqual(t []string) string {
 	sa, ok1 := parseSegs(t[1])
@@ -570,6 +598,9 @@ func execRead(t []string) string {
 	}
 	if len(t) == 3 && t[0] == "copycycle" {
 		return execCopyCycle(t)
+	}
+	if len(t) == 2 && t[0] == "canon" {
+		return execCanon(t)
 	}
 	if len(t) == 2 && t[0] == "tree" {
 		return execTree(t)
